@@ -15,10 +15,10 @@ from lib.ctx import MachineryError
 from harness.mt import mtlib
 
 QUICK_MC = ["err1", "badhdr2", "direct", "direrr", "trunc2", "memtight", "live", "live_trunc", "cat2_badpad", "cat1_trailpad",
-            "memstop", "memstop_noraise", "memstop_err", "live_memstop", "tell_cat2", "tell_err1"]
+            "memstop", "memstop_noraise", "memstop_err", "live_memstop", "tell_cat2", "tell_err1", "failmain_err1", "failmain_direct"]
 ALL_MC = ["ok", "err2", "err1", "badhdr", "badhdr2", "direct", "direrr", "empty", "trunc", "trunc2", "badtail",
           "spur", "timeout", "ff_err", "ff_trunc", "memtight", "live", "live_trunc", "cat2", "cat2_pad0", "cat2_badpad", "cat1_trailpad", "reinit", "reinit_err",
-          "memstop", "memstop_noraise", "memstop_err", "live_memstop", "tell_cat2", "tell_err1"]
+          "memstop", "memstop_noraise", "memstop_err", "live_memstop", "tell_cat2", "tell_err1", "failmain_err1", "failmain_direct"]
 
 def model_check(ctx):
     names = QUICK_MC if ctx.quick else ALL_MC
@@ -319,6 +319,9 @@ def run(ctx):
                               "decoder: ret=%s out=%d bytes (%s, failalloc %d)" % (last_f, len(out), st_ret, len(st_out), label,
                                                                                  params["failalloc"]), dict(kind="run", params=params, file=g["file"]))
             failruns[0 if last_f == lz.MEM_ERROR else 1] += 1
+            # the failure path (threads_stop / pending error, LZMA_MEM_ERROR, lzma_end) must be a behaviour of the model too
+            if init_ev is not None and init_ev.get("a") == 0:
+                g["runs"].append((label, [{"e": "Reset"}] + [e for e in evs if not (e["e"] == "Reinited" and e["a"] != 0)]))
             continue
         refused[2] += sum(1 for e in evs if e["e"] == "GetCheck")
         if g["memstop"]:
